@@ -41,7 +41,12 @@ structure BinderRow where
 structure Table where
   ops : List OpRow
   binders : List BinderRow
+  /-- spellings of lambda, hard-coded in pprint.py (`Binder("λ") if settings.unicode else Binder("%")`) -/
+  lam : BinderRow
   deriving Repr
+
+/-- all binder rows the printer knows: lambda, then `binder_data_raw` -/
+def Table.allBinders (T : Table) : List BinderRow := T.lam :: T.binders
 
 inductive Kind | infixL | infixR | pre | alias
   deriving DecidableEq, Repr, Inhabited
@@ -143,9 +148,13 @@ def brA (T : Table) (c : Cls) : Bool := (prioPair T c).1 ≤ 95
 
 def wrap (b : Bool) (ts : List Tok) : List Tok := if b then Tok.lp :: ts ++ [Tok.rp] else ts
 
-def binderSpell (L : Ladder) (uni : Bool) (b : Nat) : Nat :=
-  let g := L.binders.getD b []
-  if uni then g.getLastD 0 else g.headD 0
+/-- the printer's row for the `b`-th binder alternative of the grammar: the row whose ascii spelling the grammar lists there -/
+def binderRow (T : Table) (L : Ladder) (b : Nat) : BinderRow :=
+  (T.allBinders.find? (fun r => (L.binders.getD b []).contains r.ascii)).getD ⟨"", 1000000, 1000000, ""⟩
+
+/-- the spelling the PRINTER uses (operator.py / pprint.py), not the grammar's -/
+def binderSpell (T : Table) (L : Ladder) (uni : Bool) (b : Nat) : Nat :=
+  if uni then (binderRow T L b).unicode else (binderRow T L b).ascii
 
 /-- Token stream of `print_ast (get_ast_term t)` for the precedence core. -/
 def printSkel (T : Table) (L : Ladder) (uni : Bool) : Skel → List Tok
@@ -153,7 +162,7 @@ def printSkel (T : Table) (L : Ladder) (uni : Bool) : Skel → List Tok
   | .app f a => wrap (brF T f.cls) (printSkel T L uni f) ++ wrap (brA T a.cls) (printSkel T L uni a)
   | .bin o l r => wrap (brL T o l.cls) (printSkel T L uni l) ++ .sym (T.spell uni o) :: wrap (brR T o r.cls) (printSkel T L uni r)
   | .un o a => .sym (T.spell uni o) :: wrap (brU T o a.cls) (printSkel T L uni a)
-  | .binder b x body => .sym (binderSpell L uni b) :: .id x :: .dot :: printSkel T L uni body
+  | .binder b x body => .sym (binderSpell T L uni b) :: .id x :: .dot :: printSkel T L uni body
   | .ite c a b => .kif :: printSkel T L uni c ++ .kthen :: printSkel T L uni a ++ .kelse :: printSkel T L uni b
 
 /-! ### Parser -/
@@ -268,7 +277,14 @@ def parseSkel (T : Table) (L : Ladder) (ts : List Tok) : Option Skel :=
   | some (t, []) => some t
   | _ => none
 
-/-! ### Lexer (name-safe fragment) -/
+/-! ### Lexer (name-safe fragment)
+
+A plain longest-match lexer.  It is NOT Lark's contextual lexer: Lark only considers the terminals
+the parser can accept in its current state, so `INT UN S` (keywords where only an atom can stand are
+read as identifiers) and `a|-b` (`|` then `-`, because `|-` is no terminal of rule `term`) parse in
+Lark, while this lexer produces keyword tokens / the token `|-` and the model parser answers `none`.
+No theorem is stated about this lexer; it is only used to compare the model with real printed texts
+whose identifiers are `NameOK`. -/
 
 def isIdStart (c : Char) : Bool := c.isAlpha || c = '_'
 def isIdChar (c : Char) : Bool := c.isAlphanum || c = '_'
@@ -362,15 +378,19 @@ abbrev AppOK (T : Table) (L : Ladder) : Prop :=
 
 def isInfix (k : Kind) : Bool := k = .infixL ∨ k = .infixR
 
-abbrev LadderOK (L : Ladder) : Prop :=
+abbrev LadderOK (T : Table) (L : Ladder) : Prop :=
   (∀ i < L.n, ∀ j < L.n, i ≠ j → ∀ s ∈ (L.at i).syms.flatten, (L.at j).has s = true →
       ¬ ((isInfix (L.at i).kind = true ∧ isInfix (L.at j).kind = true) ∨ ((L.at i).kind = .pre ∧ (L.at j).kind = .pre))) ∧
   (∀ i < L.n, ∀ s ∈ (L.at i).syms.flatten, L.binderIdx s = none) ∧
-  (∀ b < L.binders.length, L.binders.getD b [] ≠ [] ∧ ∀ s ∈ L.binders.getD b [], L.binderIdx s = some b)
+  (∀ b < L.binders.length,
+      (binderSpell T L false b ∈ L.binders.getD b [] ∧ binderSpell T L true b ∈ L.binders.getD b []) ∧
+      ∀ s ∈ L.binders.getD b [], L.binderIdx s = some b) ∧
+  -- every binder row of operator.py / pprint.py is spelled the way one binder alternative of the grammar is
+  (∀ r ∈ T.allBinders, (L.binderIdx r.ascii).isSome = true ∧ L.binderIdx r.unicode = L.binderIdx r.ascii)
 
 /-- every bracket the printer omits is one the grammar does not need; spellings agree -/
 abbrev TableConsistent (T : Table) (L : Ladder) : Prop :=
-  (∀ o < T.ops.length, RowOK T L o) ∧ AppOK T L ∧ LadderOK L
+  (∀ o < T.ops.length, RowOK T L o) ∧ AppOK T L ∧ LadderOK T L
 
 /-- well-formed skeleton: operator rows exist with the right arity, binder alternatives exist -/
 def Skel.WF (T : Table) (L : Ladder) : Skel → Prop
